@@ -35,8 +35,11 @@ CLAIMED = {
             "Reference provider protocol (atomic poll) assumed by the twin-run monitor; known finding D5a."),
     "C10": ("Proved for every evaluator and rerun-free history: after canceling/canceled the status stays in "
             "{canceling, canceled, failed}, never succeeded; nothing is offered unless failed; canceled is final (so "
-            "rendering keeps it). Tested, not proved: canceling while in flight / canceled at the last report; not failed by "
-            "the unreachable-join check; output rendered from what was published (known finding D5a).",
+            "rendering keeps it). No task report on a canceling/canceled workflow makes it failed or triggers the unreachable-join "
+            "check; it becomes failed only by an explicit request or a recorded evaluation failure; the output is rendered "
+            "against the fold over terminal records, which is empty after a cancel request with tasks still staged (finding "
+            "D5a, exact). Tested, not proved: canceling while in flight / canceled at the last report with with-items tasks "
+            "(proved for the formal protocol without them, C02b).",
             "Same tie as C04; fact F_wf_cancel_closed sweeps the cancel rows of the generated table."),
     "C11": ("Proved for every evaluator whose failures are expression-evaluation exceptions, every API operation, state and "
             "history: no evaluation failure escapes a conductor API call (structural over the whole model; every evaluator "
@@ -76,8 +79,12 @@ CLAIMED.update({
             "were found this way and repaired)."),
     "C12": ("Proved about choose_items (the model of _evaluate_task_actions): offered + active <= concurrency; the offer is "
             "a prefix in item order of the items that have not run; edge cases; an item event with another item active never "
-            "completes the task (table sweep); nothing offered while held. Tested, not proved: bookkeeping across calls "
-            "(each item once per execution, succeeds iff all items succeed, window in every reachable state).",
+            "completes the task (table sweep); nothing offered while held. For the formal provider protocol with items (per-item acknowledgement and reports), every evaluator "
+            "and every fault-free history that wipes no item table: an item is in flight iff its slot is running; after every "
+            "API call of a poll at most max(k,1) items are active and no other step increases that; items are offered once "
+            "per table in consecutive index order; nothing is offered once pause or cancel was requested. Witnesses: an items "
+            "expression whose length changes between polls breaks drain-before-complete; D1; D24. Tested, not proved: drain "
+            "before complete / succeeds iff all succeed under stable item counts, result order, all n offered.",
             "Window counts active items (pending/paused items are not active, as in the engine)."),
     "C13": ("Proved for every evaluator: the retry decision is yes only while tally < count and only if the condition holds for "
             "the latest execution; retrying is entered only by the internal retry event from a completed status; a re-offered "
@@ -90,11 +97,12 @@ CLAIMED.update({
 })
 
 CLAIMED.update({
-    "C14": ("Proved about compose (the model of WorkflowComposer._compose_wf_graph), conditional on the fuelled worklist "
-            "returning a graph: edges sound and complete w.r.t. (task, transition, target) triples, nodes exactly the reachable "
+    "C14": ("Proved about compose (the model of WorkflowComposer._compose_wf_graph), unconditionally for every composable "
+            "definition (termination with a computable fuel bound is proved; an empty semantic inspection report makes a "
+            "definition composable): edges sound and complete w.r.t. (task, transition, target) triples, nodes exactly the reachable "
             "tasks, no duplicate edges, parallel-edge keys dense, roots exactly the start tasks, barrier/retry attributes exactly "
             "where declared, independence of declaration order, typed serialize/deserialize round trip incl. keys "
-            "(15 theorems). NOT proved: termination of the worklist (theorems are conditional on Val g).",
+            "(15 theorems + 14 total restatements).",
             "Model tied to composers/native.py by comparing the Coq compose (vm_compute) with the real composer on generated "
             "definitions, plus an independent reference construction from the definition."),
     "C17": ("PARTIAL. Proved: a rerun is refused (state unchanged) unless the workflow is completed and every request names an "
